@@ -37,7 +37,7 @@ theorem acyclic1_iff_no_cycle1 (T : List (Triple β)) : Acyclic1 T ↔ ¬ ∃ c,
 /-- Under `Acyclic1` (needed only with `Inline`), `ExportResource(s, opts)` — hence
     `ExportResourceStatements` and every element of `ExportResources` — returns for every subject `s`,
     with a call stack no deeper than `|T|+1` frames. -/
-theorem export_terminates (T : List (Triple β)) (opts : Opts) (h : opts.inline = true → Acyclic1 T)
+theorem export_terminates_partial (T : List (Triple β)) (opts : Opts) (h : opts.inline = true → Acyclic1 T)
     (s : Term β) : ((build T).exportResource opts (T.length + 1) s).isSome := by
   unfold Builder.exportResource
   rw [Option.isSome_map]
@@ -82,7 +82,7 @@ theorem not_export_terminates_all : ¬ export_terminates_all := by
     resources is isomorphic to the input — a blank-node renaming that is an injective function maps
     the input onto the output as a multiset (nothing dropped, nothing duplicated, no two nodes merged,
     none split). Hypothesis: `Acyclic1 T` when `Inline` is set. -/
-theorem flatten_export (T : List (Triple β)) (opts : Opts) (ord : List (Term β))
+theorem flatten_export_partial (T : List (Triple β)) (opts : Opts) (ord : List (Term β))
     (hord : ord.Perm (build T).subjects) (h : opts.inline = true → Acyclic1 T) (n : Nat) :
     ∃ rs, (build T).exportResources opts ord (T.length + 1) = some rs ∧ Iso (newTriplesList rs n).1 T :=
   Proofs.C17.flatten_export T opts ord hord h n
@@ -126,7 +126,7 @@ theorem not_flatten_export_all : ¬ flatten_export_all := by
     and of each graph's subject map (`sord`), the flattened export is isomorphic to the input quads
     (graph names renamed by the same `σ`). Hypotheses: `Acyclic1` per graph when `Inline` is set, and
     no blank node that one graph's export anonymizes occurs in another graph or as a graph name. -/
-theorem dataset_flatten_export (Q : List (DQuad β)) (opts : Opts) (gord : List (Option (Term β)))
+theorem dataset_flatten_export_partial (Q : List (DQuad β)) (opts : Opts) (gord : List (Option (Term β)))
     (sord : Option (Term β) → List (Term β))
     (hg : gord.Perm (dbuild Q).graphNames)
     (hs : ∀ g ∈ gord, (sord g).Perm ((dbuild Q).builder g).subjects)
@@ -210,7 +210,7 @@ theorem flatten_export_repaired (T : List (Triple β)) (opts : Opts) (ord1 ord2 
   Proofs.C17.flatten_exportV T opts ord1 ord2 hord1 hord2 n
 
 /-- Repaired code, datasets: only the cross-graph hypothesis remains. -/
-theorem dataset_flatten_export_repaired (Q : List (DQuad β)) (opts : Opts) (gord : List (Option (Term β)))
+theorem dataset_flatten_export_repaired_partial (Q : List (DQuad β)) (opts : Opts) (gord : List (Option (Term β)))
     (sord1 sord2 : Option (Term β) → List (Term β))
     (hg : gord.Perm (dbuild Q).graphNames)
     (hs1 : ∀ g ∈ gord, (sord1 g).Perm ((dbuild Q).builder g).subjects)
@@ -294,10 +294,10 @@ example : ¬ Acyclic1 selfLoop := by decide
 example : Cycle1 twoCycle [0, 1] :=
   ⟨0, [1], rfl, by decide, ⟨⟨[112], by decide⟩, ⟨[112], by decide⟩, trivial⟩⟩
 
-/-- the hypotheses of `flatten_export` hold for `sample` with the default options and insertion order -/
+/-- the hypotheses of `flatten_export_partial` hold for `sample` with the default options and insertion order -/
 example : ∃ rs, (build sample).exportResources Opts.default (build sample).subjects (sample.length + 1) = some rs ∧
     Iso (newTriplesList rs 0).1 sample :=
-  flatten_export sample Opts.default _ (List.Perm.refl _) (fun _ => by decide) 0
+  flatten_export_partial sample Opts.default _ (List.Perm.refl _) (fun _ => by decide) 0
 
 /-- a dataset in which a blank node is shared between two graphs without being anonymized in either
     (referenced twice in each) satisfies the cross-graph hypothesis -/
